@@ -7,9 +7,13 @@ for every a, b < 2^63); a literal item raises the size error iff its element cou
 the declared bounds (`size_error_iff`); an ASCII variable keeps the bounds (`ascii_var_keeps`),
 prints them back (`printed_bounds`) and a fill is accepted iff the string length lies inside
 them and the string is 7-bit and within the limit (`fill_enforces`).
-Bounds of 2^63 and more: `Atoi` clamps them to 2^63−1; no item can have that many elements, so
-acceptance is unchanged (the correspondence run covers them with big-integer arithmetic); the
-clamped value is what an ASCII variable then prints back (observation recorded in DESIGN §6.15).
+Bounds of 2^63 and more: `Atoi` clamps them to 2^63−1 (`bounds_exact_any`, `bounds_range_any`,
+`bounds_from_any`, `bounds_upto_any`: for EVERY a, b the bounds read are min(·, 2^63−1)); no item
+can have that many elements, so the verdict is the mathematical one whatever was written
+(`verdict_exact_any`, `verdict_range_any`, `verdict_from_any`, `verdict_upto_any`: for every
+element count below 2^63−1 — an item has at most 16,777,215 — the size check passes iff the count
+lies within the bounds AS WRITTEN); the clamped value is what an ASCII variable then prints back
+(observation recorded in DESIGN §6.15).
 -/
 import SecsModel.Proofs.Decimal
 import SecsModel.Model.Parser
@@ -128,6 +132,130 @@ theorem fill_enforces (n : Name) (mn mx : Int) (env : Env) (s : Bytes) (h : env.
     constructor
     · intro h3; exact ⟨by omega, by omega, h3⟩
     · intro h3; exact h3.2.2
+
+
+/-! ### bounds of any magnitude: clamped by `Atoi`, verdict unchanged -/
+
+/-- 2^63 − 1, the value `Atoi` clamps to -/
+def clampMax : Nat := 2 ^ 63 - 1
+
+/-- `[a]` for EVERY a -/
+theorem bounds_exact_any (a : Nat) :
+    sizeBounds (91 :: decDigits a ++ [93]) = (((min a clampMax : Nat) : Int), ((min a clampMax : Nat) : Int)) := by
+  unfold sizeBounds
+  simp only [inner_of, indexOf_digits _ (decDigits_spec a).1, atoi_decDigits_val a, clampMax]
+
+/-- the upper bound is never read as "no limit": a range error is not a syntax error -/
+theorem atoi_decDigits_not_syntax (b : Nat) : ((atoi (decDigits b)).err == some NumErr.syntax) = false := by
+  by_cases hb : b < 2 ^ 63
+  · rw [atoi_decDigits b hb]; rfl
+  · have hval := atoi_decDigits_val b
+    cases he : (atoi (decDigits b)).err with
+    | none => rfl
+    | some e =>
+      cases e
+      · exfalso
+        -- a syntax error comes with value 0; the value is 2^63 − 1
+        have h0 := parseInt_syntax_val (decDigits b) 10 0 he
+        unfold atoi at hval
+        rw [h0] at hval
+        have : min b (2 ^ 63 - 1) = 2 ^ 63 - 1 := by omega
+        rw [this] at hval
+        omega
+      · rfl
+
+/-- `[a..b]` for EVERY a, b -/
+theorem bounds_range_any (a b : Nat) :
+    sizeBounds (91 :: (decDigits a ++ 46 :: 46 :: decDigits b) ++ [93]) =
+      (((min a clampMax : Nat) : Int), ((min b clampMax : Nat) : Int)) := by
+  unfold sizeBounds
+  simp only [inner_of, indexOf_digits_dot _ _ (decDigits_spec a).1]
+  simp [atoi_decDigits_val, atoi_decDigits_not_syntax, clampMax]
+
+/-- `[a..]` for EVERY a -/
+theorem bounds_from_any (a : Nat) :
+    sizeBounds (91 :: (decDigits a ++ [46, 46]) ++ [93]) = (((min a clampMax : Nat) : Int), (-1 : Int)) := by
+  unfold sizeBounds
+  simp only [inner_of, indexOf_digits_dot _ _ (decDigits_spec a).1]
+  simp [atoi_decDigits_val, clampMax]
+  decide
+
+/-- `[..b]` for EVERY b -/
+theorem bounds_upto_any (b : Nat) :
+    sizeBounds (91 :: (46 :: 46 :: decDigits b) ++ [93]) = ((0 : Int), ((min b clampMax : Nat) : Int)) := by
+  unfold sizeBounds
+  have h0 := indexOf_digits_dot [] (46 :: decDigits b) (by simp)
+  simp only [List.nil_append] at h0
+  simp only [inner_of, h0]
+  simp [atoi_decDigits_val, atoi_decDigits_not_syntax, clampMax]
+  decide
+
+/-- the size check on natural-number bounds with an upper bound -/
+theorem sizeOk_nat (size lo hi : Nat) : sizeOk (size : Int) (lo : Int) (hi : Int) = decide (lo ≤ size ∧ size ≤ hi) := by
+  unfold sizeOk
+  have hne : ((hi : Int) == -1) = false := by rw [beq_eq_false_iff_ne]; omega
+  simp only [hne, Bool.false_eq_true, if_false]
+  by_cases h : lo ≤ size ∧ size ≤ hi
+  · simp [h]
+  · simp only [h, decide_false, Bool.and_eq_false_iff, decide_eq_false_iff_not]
+    omega
+
+/-- … and without one -/
+theorem sizeOk_nat_open (size lo : Nat) : sizeOk (size : Int) (lo : Int) (-1) = decide (lo ≤ size) := by
+  unfold sizeOk
+  by_cases h : lo ≤ size
+  · simp [h]
+  · simp [h]; omega
+
+theorem clamp_le (a size : Nat) (hs : size < clampMax) : min a clampMax ≤ size ↔ a ≤ size := by
+  unfold clampMax at *; omega
+
+theorem le_clamp (b size : Nat) (hs : size < clampMax) : size ≤ min b clampMax ↔ size ≤ b := by
+  unfold clampMax at *; omega
+
+/-- **the verdict is the mathematical one whatever was written**: for every element count an
+item can have (anything below 2^63 − 1; items have at most 16,777,215 elements) the size check
+on `[a]` passes iff the count is a — for EVERY a, also one that `Atoi` clamps -/
+theorem verdict_exact_any (a size : Nat) (hs : size < clampMax) :
+    sizeOk size (sizeBounds (91 :: decDigits a ++ [93])).1 (sizeBounds (91 :: decDigits a ++ [93])).2 = decide (size = a) := by
+  rw [bounds_exact_any, sizeOk_nat]
+  apply decide_eq_decide.mpr
+  rw [clamp_le a size hs, le_clamp a size hs]
+  omega
+
+/-- `[a..b]`: passes iff a ≤ count ≤ b -/
+theorem verdict_range_any (a b size : Nat) (hs : size < clampMax) :
+    sizeOk size (sizeBounds (91 :: (decDigits a ++ 46 :: 46 :: decDigits b) ++ [93])).1
+      (sizeBounds (91 :: (decDigits a ++ 46 :: 46 :: decDigits b) ++ [93])).2 = decide (a ≤ size ∧ size ≤ b) := by
+  rw [bounds_range_any, sizeOk_nat]
+  apply decide_eq_decide.mpr
+  rw [clamp_le a size hs, le_clamp b size hs]
+
+/-- `[a..]`: passes iff a ≤ count -/
+theorem verdict_from_any (a size : Nat) (hs : size < clampMax) :
+    sizeOk size (sizeBounds (91 :: (decDigits a ++ [46, 46]) ++ [93])).1
+      (sizeBounds (91 :: (decDigits a ++ [46, 46]) ++ [93])).2 = decide (a ≤ size) := by
+  rw [bounds_from_any, sizeOk_nat_open]
+  apply decide_eq_decide.mpr
+  rw [clamp_le a size hs]
+
+/-- `[..b]`: passes iff count ≤ b -/
+theorem verdict_upto_any (b size : Nat) (hs : size < clampMax) :
+    sizeOk size (sizeBounds (91 :: (46 :: 46 :: decDigits b) ++ [93])).1
+      (sizeBounds (91 :: (46 :: 46 :: decDigits b) ++ [93])).2 = decide (size ≤ b) := by
+  rw [bounds_upto_any]
+  have := sizeOk_nat size 0 (min b clampMax)
+  simp only [Int.natCast_zero] at this
+  rw [this]
+  apply decide_eq_decide.mpr
+  rw [le_clamp b size hs]
+  omega
+
+/-- non-vacuity (a test): a bound of 2^64 + 5 is read as 2^63 − 1, and an item of 3 elements is
+refused by `[18446744073709551621]` and accepted by `[..18446744073709551621]` -/
+example : sizeBounds (str "[18446744073709551621]") = (9223372036854775807, 9223372036854775807) ∧
+    sizeOk 3 9223372036854775807 9223372036854775807 = false ∧
+    sizeBounds (str "[..18446744073709551621]") = (0, 9223372036854775807) := by decide +kernel
 
 /-! ### tie to the source: the accept sets of lexDataItemSize -/
 theorem facts_size_lexer :
